@@ -22,7 +22,7 @@ Theorem C01_chunked_reader_is_one_pass :
   chunkn > 0 -> chunkn mod (p + 2) = 0 -> to_read mod (p + 2) = 0 -> pos + to_read <= length region ->
   to_read <= n * chunkn -> (5 <= BSgen.Consts.read_overlap_lines)%N ->
   wf_rst p st -> Forall (fun s => length s = p + 2) (held_slots st) ->
-  chunk_loop St proc p cb n (N.of_nat chunkn) region (N.of_nat pos) (N.of_nat to_read) full (concat (held_slots st)) acc
+  chunk_loop St proc p cb n (N.of_nat chunkn) region (N.of_nat pos) (N.of_nat to_read) full (base st) (concat (held_slots st)) acc
   = result_of St (scan_lines St proc p cb full st acc (chunks (p + 2) (firstn to_read (skipn pos region)))).
 Proof. exact chunk_loop_is_scan. Qed.
 Print Assumptions C01_chunked_reader_is_one_pass.
